@@ -53,7 +53,7 @@ func c08Install(e types.EnvType, m *c08Mon) {
 	}})
 }
 
-var c08Constructs = []string{"fn-last", "fn-multi", "do", "let-list", "let-vector", "if-then", "if-else", "cond", "and", "or", "quasiquote-unquote", "let-3", "if-one-armed", "do-single", "and-single", "or-single", "fn-rest-params", "nonsymbol-head"}
+var c08Constructs = []string{"fn-last", "fn-multi", "do", "let-list", "let-vector", "if-then", "if-else", "cond", "and", "or", "quasiquote-unquote", "let-3", "if-one-armed", "do-single", "and-single", "or-single", "fn-rest-params", "nonsymbol-head", "let-empty", "fn-5-params", "cond-one-clause"}
 
 // c08Tail wraps call (an expression) in d tail-position constructs.
 func c08Tail(r *rand.Rand, call string, d int, used map[string]bool) string {
@@ -78,6 +78,15 @@ func c08Tail(r *rand.Rand, call string, d int, used map[string]bool) string {
 		return "(let (t 1 u 2 w (+ t u)) (depth-iter!) " + inner + ")"
 	case "if-then":
 		return "(if true " + inner + " :no)"
+	case "let-empty":
+		if r.Intn(2) == 0 {
+			return "(let () " + inner + ")"
+		}
+		return "(let [] (depth-iter!) " + inner + ")"
+	case "fn-5-params":
+		return "((fn (a b c d e) " + inner + ") 1 2 3 4 5)"
+	case "cond-one-clause":
+		return "(cond :else " + inner + ")"
 	case "if-one-armed":
 		return "(if true " + inner + ")"
 	case "do-single":
